@@ -1,0 +1,48 @@
+//go:build verif
+
+package datasemaphore
+
+// Machine-checked contracts for /verif (read as text by the VC generator; no code).
+//
+//@ ghost warnings int
+//@
+//@ funcfield DataSemaphore.warning
+//@   modifies warnings
+//@   ghost warnings = old(warnings) + 1
+//@
+//@ spec fits(s *DataSemaphore, m dag.Metric) bool = s.processing.Num + m.Num <= s.maxProcessing.Num && s.processing.Size + m.Size <= s.maxProcessing.Size
+//@
+//@ func (*DataSemaphore).tryAcquire
+//@   requires s != nil
+//@   modifies s.processing
+//@   ensures  [grant] result == old(fits(s, metric))
+//@   ensures  [held] result ==> s.processing.Num == old(s.processing.Num) + metric.Num && s.processing.Size == old(s.processing.Size) + metric.Size
+//@   ensures  [bound] result ==> s.processing.Num <= s.maxProcessing.Num && s.processing.Size <= s.maxProcessing.Size
+//@   ensures  [refuse] !result ==> s.processing.Num == old(s.processing.Num) && s.processing.Size == old(s.processing.Size)
+//@
+//@ func (*DataSemaphore).TryAcquire
+//@   requires s != nil
+//@   modifies s.processing
+//@   ensures  result == old(fits(s, weight))
+//@   ensures  result ==> s.processing.Num == old(s.processing.Num) + weight.Num && s.processing.Size == old(s.processing.Size) + weight.Size
+//@   ensures  result ==> s.processing.Num <= s.maxProcessing.Num && s.processing.Size <= s.maxProcessing.Size
+//@   ensures  !result ==> s.processing.Num == old(s.processing.Num) && s.processing.Size == old(s.processing.Size)
+//@
+//@ func (*DataSemaphore).Release
+//@   requires s != nil
+//@   modifies s.processing, warnings
+//@   ensures  [over] old(s.processing.Num < weight.Num || s.processing.Size < weight.Size) ==> s.processing.Num == 0 && s.processing.Size == 0 && (s.warning != nil ==> warnings == old(warnings) + 1)
+//@   ensures  [normal] !old(s.processing.Num < weight.Num || s.processing.Size < weight.Size) ==> s.processing.Num == old(s.processing.Num) - weight.Num && s.processing.Size == old(s.processing.Size) - weight.Size && warnings == old(warnings)
+//@
+//@ func (*DataSemaphore).Terminate
+//@   requires s != nil
+//@   modifies s.maxProcessing
+//@   ensures  s.maxProcessing.Num == 0 && s.maxProcessing.Size == 0
+//@
+//@ func (*DataSemaphore).Processing
+//@   requires s != nil
+//@   ensures  result.Num == s.processing.Num && result.Size == s.processing.Size
+//@
+//@ lemma terminated_refuses(pn int, ps int, mn int, ms int)
+//@   requires pn >= 0 && ps >= 0 && mn >= 0 && ms >= 0 && (mn > 0 || ms > 0)
+//@   ensures  !(pn + mn <= 0 && ps + ms <= 0)
